@@ -537,6 +537,20 @@ def main(tier):
                       dict(replay, what="asn1c exited 0 and the code builds, but a type descriptor is internally inconsistent: wf_descr_all = false",
                            failing=bad, terms=[tables[i][3][d][:1500] for d, _ in diag[:2] if 0 <= d < len(tables[i][3])]))
 
+    # (i) thorough: which module reaches which part of the emitter (gcov on a scratch copy of asn1c) - evidence about the generator
+    emitter_cov = None
+    if tier != "quick" or os.environ.get("C10_GCOV"):
+        try:
+            import c10_gcov
+            A = all_optsets()
+            emitter_cov = c10_gcov.coverage_report(mods, lambda i, m_: [(), QUICK_OPTSETS[2], A[(37 * i + 5) % 128]])
+            run.count("emitter-coverage:executed-lines", emitter_cov["executed_lines"])
+            run.count("emitter-coverage:executable-lines", emitter_cov["executable_lines"])
+            run.count("emitter-coverage:switch-arms-never-reached", sum(1 for v in emitter_cov["switch_arms"].values() if v == "NEVER"))
+            print("C10: emitter coverage done at %.1fs: %d/%d lines of %s" % (time.time() - T0, emitter_cov["executed_lines"], emitter_cov["executable_lines"], emitter_cov["source"]), file=sys.stderr)
+        except Exception as e:          # evidence only: never a verdict
+            emitter_cov = {"error": str(e)[-800:]}
+
     # vlib prints one VIOLATION line per kind among the first 20 recorded: put one of every kind first
     firsts, rest, seen_k = [], [], set()
     for v in run.violations:
@@ -553,7 +567,9 @@ def main(tier):
                       extra_cov={"theorems": names, "modules": len(mods), "option_sets": len(optsets), "tables_checked": len(tables),
                                  "rule": "one case = (module, option set); non-trivial = went through build + translator; quick: 4 option sets, "
                                          "thorough: asn1c under all 128 subsets, build+translator under 16 rotating subsets per module",
-                                 "partial": "(a) termination and (b) buildability are observations on this corpus; (c) is decided inside Coq per run"},
+                                 "partial": "(a) termination and (b) buildability are observations on this corpus; (c) is decided inside Coq per run",
+                                 "reference_sweep": {"kinds": [k[0] for k in c10_refs.KINDS], "modules": sum(1 for m_ in mods if m_["origin"] == "refs")},
+                                 "emitter_coverage": emitter_cov or "thorough tier only (C10_GCOV=1 forces it)"},
                       assumptions=["x86-64 LP64, gcc of this image", "supported constructs = what lib/modgen.py, lib/widegen.py and the hand-made list in lib/c10_util.py exercise",
                                    "descriptor consistency is necessary for, not equal to, codec correctness (C01/C02 tie behaviour)"])
 
